@@ -64,7 +64,17 @@ class CheckMixin:
         """Check if arg_type is an enum in the class `class_`."""
         if class_:
             class_enums = [enum.name for enum in class_.enums]
-            return arg_type.typename.name in class_enums
+            if arg_type.typename.name not in class_enums:
+                return False
+            # A qualified name which does not end in the class refers to an
+            # enum of the same name outside the class, e.g. `ns::Kind` as
+            # opposed to `ns::Class::Kind`.
+            namespaces = arg_type.typename.namespaces
+            class_names = (class_.name,
+                           getattr(getattr(class_, 'original', None), 'name',
+                                   class_.name))
+            return not namespaces or \
+                namespaces[-1].split('<')[0] in class_names
         else:
             return False
 
